@@ -386,6 +386,7 @@ static inline uring_index uring_fifo_pop(struct uring *uring,
             }
 
             for ( ; ; ) {
+                uring_fifo_val head_fifo = old_fifo & UINT16_MAX;
                 uring_fifo_set_head(uring, &new_fifo, prev);
                 if (likely(uatomic_compare_exchange(fifo_p, &old_fifo,
                                                     new_fifo)))
@@ -393,8 +394,10 @@ static inline uring_index uring_fifo_pop(struct uring *uring,
 
                 new_fifo = old_fifo;
                 /* Check if only the tail was changed (and then try again),
-                 * or if we need to restart everything. */
-                if (unlikely(head != uring_fifo_get_head(uring, old_fifo)))
+                 * or if we need to restart everything. The head tag must be
+                 * compared too: the head element may have been popped and
+                 * pushed again in the meantime. */
+                if (unlikely(head_fifo != (old_fifo & UINT16_MAX)))
                     break;
             }
         }
